@@ -17,9 +17,30 @@
       w.r.t. compareReferenceType; lists of every length, the empty one included);  [exclude_rel s exc out] likewise for
       s.Exclude(exc...);
     - [Distinguishable s]: distinct artifacts have distinct type names (and
-      vice versa) and every artifact is used with one address mapper. *)
+      vice versa) and every artifact is used with one address mapper.
+
+    Slice level (Model/RefsHeap.v, Proofs/RefsHeap.v; last section): memory =
+    arrays of ranges + arrays of Reference structs whose Ranges field is a slice
+    (array, offset, len) of a range array; variables = slices of struct arrays
+    (References) or of range arrays (Ranges); [step st o] runs one operation
+    (caller-made copy, BySystemArtifact, Ranges, Exclude, SortAndMerge, Resolve,
+    RawBytes, Reference.RawBytes, Ranges.SortAndMerge) and yields the new state
+    (results are new variables), [run] a sequence.
+    - [Wok h0 W0]: the caller's range slices W0 lie inside the arrays h0 and two
+      of them are the same window or disjoint (cells around them -- spare
+      capacity, cells in front -- are unconstrained);
+    - [SInv h0 W0 st]: reachable-state invariant: the range heap extends h0,
+      every Reference struct in memory has one of W0 or the whole of a later
+      array as its Ranges, every variable lies inside its array, two References
+      variables share no cell;
+    - [target o]: the variable the operation is DOCUMENTED to modify (receiver
+      of References.SortAndMerge, Resolve, Ranges.SortAndMerge), [targets ops];
+    - [sorter o]: the operations KNOWN to sort range slices in place (Exclude,
+      SortAndMerge, RawBytes, Reference.RawBytes, Ranges.SortAndMerge);
+    - [upto b x y]: same artifact, same mapper, same ranges (b = true: up to
+      their order);  [lval m s]: the references a References slice holds. *)
 From Coq Require Import Permutation.
-From CSS Require Import Lib.Base Model.Ranges Model.Refs Proofs.Ranges Proofs.Refs.
+From CSS Require Import Lib.Base Model.Ranges Model.Refs Model.RefsHeap Proofs.Ranges Proofs.Refs Proofs.RefsHeap.
 
 (** ** fiano ranges *)
 
@@ -284,3 +305,134 @@ Proof. vm_compute. reflexivity. Qed.
 Example C11_ex_ranges : Forall okr [mkR 5 0; mkR 3 2; mkR 9 1; mkR 0 3; mkR 5 0] /\
   ranges_sm [mkR 5 0; mkR 3 2; mkR 9 1; mkR 0 3; mkR 5 0] = [mkR 0 5; mkR 9 1].
 Proof. split; [|reflexivity]. repeat constructor; cbn; lia. Qed.
+
+
+(** ** Slice level: what an operation does to memory it was not asked to change *)
+
+(** The invariant holds for the hand-written memory below and is kept by every operation. *)
+Theorem C11_heap_invariant : forall h0 W0 st o st' r,
+  Wok h0 W0 -> SInv h0 W0 st -> step st o = Some (st', r) -> SInv h0 W0 st'.
+Proof. exact (fun h0 W0 st o st' r WF I E => proj1 (step_inv h0 W0 WF st o st' r I E)). Qed.
+Print Assumptions C11_heap_invariant.
+
+(** Receiver, arguments, results of earlier operations: every References variable
+    other than the one the operation is documented to modify is the same slice
+    afterwards and holds, position by position, the same artifact, the same
+    mapper and the same ranges -- in the same order unless the operation is one
+    of those known to sort range slices in place. *)
+Theorem C11_heap_others_kept : forall h0 W0, Wok h0 W0 -> forall st o st' r u s,
+  SInv h0 W0 st -> step st o = Some (st', r) -> target o <> Some u ->
+  nth_error (st_env st) u = Some (VRefs s) ->
+  nth_error (st_env st') u = Some (VRefs s) /\
+  Forall2 (upto (sorter o)) (lval (st_m st) s) (lval (st_m st') s).
+Proof. exact step_others. Qed.
+Print Assumptions C11_heap_others_kept.
+
+(** ... likewise a Ranges variable (the result of an earlier Ranges()). *)
+Theorem C11_heap_other_ranges_kept : forall h0 W0, Wok h0 W0 -> forall st o st' r u s,
+  SInv h0 W0 st -> step st o = Some (st', r) -> target o <> Some u ->
+  nth_error (st_env st) u = Some (VRngs s) ->
+  nth_error (st_env st') u = Some (VRngs s) /\
+  if sorter o then Permutation (rd (m_r (st_m st)) s) (rd (m_r (st_m st')) s)
+  else rd (m_r (st_m st')) s = rd (m_r (st_m st)) s.
+Proof. exact step_others_ranges. Qed.
+Print Assumptions C11_heap_other_ranges_kept.
+
+(** Results stay valid: after ANY sequence of operations a variable that none of
+    them is documented to modify holds what it held, up to the order of the
+    ranges inside each reference ... *)
+Theorem C11_heap_results_stay_valid : forall h0 W0 ops st st' u s,
+  Wok h0 W0 -> SInv h0 W0 st -> run st ops = Some st' -> ~ In u (targets ops) ->
+  nth_error (st_env st) u = Some (VRefs s) ->
+  nth_error (st_env st') u = Some (VRefs s) /\
+  Forall2 (upto true) (lval (st_m st) s) (lval (st_m st') s).
+Proof. exact (fun h0 W0 ops st st' u s WF => run_others h0 W0 WF ops st st' u s). Qed.
+Print Assumptions C11_heap_results_stay_valid.
+
+(** ... hence denotes the same set of (artifact, address space, offset) triples ... *)
+Theorem C11_heap_same_triples : forall h0 W0 ops st st' u s,
+  Wok h0 W0 -> SInv h0 W0 st -> run st ops = Some st' -> ~ In u (targets ops) ->
+  nth_error (st_env st) u = Some (VRefs s) ->
+  forall a m k, den (lval (st_m st') s) a m k <-> den (lval (st_m st) s) a m k.
+Proof.
+  intros h0 W0 ops st st' u s WF I E N Hu a m k. symmetry.
+  apply (upto_den true), (proj2 (run_others h0 W0 WF ops st st' u s I E N Hu)).
+Qed.
+Print Assumptions C11_heap_same_triples.
+
+(** ... and exactly what it held when the sequence consists of queries that do not
+    sort (caller-made copies, BySystemArtifact, Ranges, Resolve of other lists). *)
+Theorem C11_heap_queries_exact : forall h0 W0 ops st st' u s,
+  Wok h0 W0 -> SInv h0 W0 st -> run st ops = Some st' -> ~ In u (targets ops) ->
+  forallb (fun o => negb (sorter o)) ops = true ->
+  nth_error (st_env st) u = Some (VRefs s) ->
+  nth_error (st_env st') u = Some (VRefs s) /\ lval (st_m st') s = lval (st_m st) s.
+Proof. exact (fun h0 W0 ops st st' u s WF => run_others_exact h0 W0 WF ops st st' u s). Qed.
+Print Assumptions C11_heap_queries_exact.
+
+(** A cell of the caller's range arrays that lies in no range slice (spare
+    capacity behind a slice, cells in front of it or between two slices) is never
+    written, whatever the sequence of operations. *)
+Theorem C11_heap_spare_capacity_untouched : forall h0 W0 a i,
+  Wok h0 W0 -> (i < length (nth a h0 []))%nat -> (forall w, In w W0 -> sep (mkSl a i 1) w) ->
+  forall ops st st', SInv h0 W0 st -> run st ops = Some st' ->
+  nth i (nth a (m_r (st_m st')) []) (mkR 0 0) = nth i (nth a (m_r (st_m st)) []) (mkR 0 0).
+Proof. exact run_cell. Qed.
+Print Assumptions C11_heap_spare_capacity_untouched.
+
+(** Reference structs that lie in no variable (spare capacity of a list, cells in
+    front of it) are not written by an operation. *)
+Theorem C11_heap_reference_cells_untouched : forall h0 W0 st o st' r fw,
+  Wok h0 W0 -> SInv h0 W0 st -> step st o = Some (st', r) ->
+  inb (m_f (st_m st)) fw -> (forall v s, nth_error (st_env st) v = Some (VRefs s) -> sep fw s) ->
+  rd (m_f (st_m st')) fw = rd (m_f (st_m st)) fw.
+Proof. exact step_ref_cells. Qed.
+Print Assumptions C11_heap_reference_cells_untouched.
+
+(** The queries against the value-level model the theorems above are about:
+    BySystemArtifact yields a new variable holding the filter of what the receiver holds, *)
+Theorem C11_heap_by_artifact_value : forall st v a st' r s,
+  step st (OBy v a) = Some (st', r) -> get_refs st v = Some s ->
+  exists x, st_env st' = st_env st ++ [VRefs x] /\ lval (st_m st') x = by_artifact (lval (st_m st) s) a.
+Proof. exact step_by_value. Qed.
+Print Assumptions C11_heap_by_artifact_value.
+
+(** Ranges a new variable holding the concatenation, *)
+Theorem C11_heap_ranges_value : forall st v st' r s,
+  step st (ORanges v) = Some (st', r) -> get_refs st v = Some s ->
+  exists x, st_env st' = st_env st ++ [VRngs x] /\ rd (m_r (st_m st')) x = refs_ranges (lval (st_m st) s).
+Proof. exact step_ranges_value. Qed.
+Print Assumptions C11_heap_ranges_value.
+
+(** and Reference.RawBytes, which sorts the ranges of its receiver in place, the
+    bytes the value-level model computes from the ranges as they were.
+    (SortAndMerge, Exclude, Resolve and References.RawBytes at slice level are
+    compared with the value-level functions on every run, operation by
+    operation: [vcheck] in Model/RefsCases.v -- sampled, not proved.) *)
+Theorem C11_heap_ref_rawbytes_value : forall h x,
+  inb h (hd_rs x) -> snd (ref_rawbytes_h h x) = ref_rawbytes (hval h x).
+Proof. exact ref_rawbytes_h_value. Qed.
+Print Assumptions C11_heap_ref_rawbytes_value.
+
+(** [Wok] cannot be dropped: with two range slices that overlap without being
+    the same window (a[0:2] and a[1:3]) RawBytes of one list -- it sorts a[0:2]
+    in place -- changes the set another list denotes. *)
+Definition ov_st : state :=
+  mkSt (mkMem [[mkR 4 1; mkR 0 1; mkR 2 1]]
+              [[mkHdr wA MNil (mkSl 0 0 2)]; [mkHdr wA MNil (mkSl 0 1 2)]])
+       [VRefs (mkSl 0 0 1); VRefs (mkSl 1 0 1)].
+Theorem C11_heap_overlapping_slices_refuted : exists st' r,
+  step ov_st (ORawBytes 0) = Some (st', r) /\
+  den (lval (st_m ov_st) (mkSl 1 0 1)) 1 MNil 0 /\ ~ den (lval (st_m st') (mkSl 1 0 1)) 1 MNil 0.
+Proof.
+  eexists. eexists. split; [vm_compute; reflexivity|].
+  split; [apply denb_spec; reflexivity | apply denb_false; reflexivity].
+Qed.
+Print Assumptions C11_heap_overlapping_slices_refuted.
+
+(** The hypotheses are satisfiable: two lists over three range arrays with a
+    shared array, spare capacity and cells in front; a program runs on it. *)
+Example C11_ex_heap_hyps : Wok ex_h0 ex_W0 /\ SInv ex_h0 ex_W0 ex_st.
+Proof. exact (conj ex_Wok ex_SInv). Qed.
+Example C11_ex_heap_runs : exists st', run ex_st ex_ops = Some st'.
+Proof. exact ex_runs. Qed.
